@@ -37,6 +37,82 @@ def run_flatten_case(p):
     return None
 
 
+def run_flatten_elem_case(p):
+    """C16 / C05: conditions on the flattened ELEMENT itself (and on its parent), any nesting of and / or / not; rows are
+    (parent, element) pairs; the lists hold distinct elements (whether the same object listed twice counts twice under a
+    disjunction is not something C16 settles, see DESIGN)"""
+    from entity_query_language import symbolic_mode, let, an, set_of, and_, or_, not_, flatten
+    O.reset_registry()
+    (O.enable_caching if p.get('caching', True) else O.disable_caching)()
+    rng = random.Random(p['seed'])
+    dom = O.make_domain(rng, p.get('n', 3))
+    for o in dom:
+        o.tags = rng.sample([0, 1, 2, 3, 4, 5], rng.randint(0, 4))
+
+    def gen(d):
+        if d == 0 or rng.random() < 0.3:
+            if rng.random() < 0.65:
+                return ('elem', rng.choice(['lt', 'le', 'gt', 'ge', 'eq', 'ne']), rng.choice([1, 2, 3, 4]))
+            return ('par', rng.choice(['lt', 'ge', 'eq', 'ne']), rng.choice([1, 2, 3]))
+        k = rng.random()
+        if k < 0.4:
+            return ('and', gen(d - 1), gen(d - 1))
+        if k < 0.8:
+            return ('or', gen(d - 1), gen(d - 1))
+        return ('not', gen(d - 1))
+
+    def holds(c, o, e):
+        if c[0] == 'elem':
+            return O.OPS[c[1]](e, c[2])
+        if c[0] == 'par':
+            return O.OPS[c[1]](o.size, c[2])
+        if c[0] == 'not':
+            return not holds(c[1], o, e)
+        return (holds(c[1], o, e) and holds(c[2], o, e)) if c[0] == 'and' else (holds(c[1], o, e) or holds(c[2], o, e))
+
+    def build(c, b, it):
+        if c[0] == 'elem':
+            return O.OPS[c[1]](it, c[2])
+        if c[0] == 'par':
+            return O.OPS[c[1]](b.size, c[2])
+        if c[0] == 'not':
+            return not_(build(c[1], b, it))
+        return (and_ if c[0] == 'and' else or_)(build(c[1], b, it), build(c[2], b, it))
+
+    def n_elem(c):
+        return 1 if c[0] == 'elem' else (0 if c[0] == 'par' else sum(n_elem(x) for x in c[1:]))
+    cond = gen(p.get('depth', 2))
+    try:
+        with symbolic_mode():
+            b = let(type_=O.Item, domain=dom)
+            it = flatten(b.tags)
+            sel = [b, it] if p.get('select_parent', True) else [it]
+            q = an(set_of(sel, build(cond, b, it)))
+        ok = True
+        for _ in range(2):          # evaluated twice
+            rows = list(q.evaluate())
+            got = sorted(((dom.index(r[b]),) if p.get('select_parent', True) else ()) + (r[it],) for r in rows)
+            want = sorted(((i,) if p.get('select_parent', True) else ()) + (e,) for i, o in enumerate(dom) for e in o.tags if holds(cond, o, e))
+            if got != want:
+                ok = False
+                break
+    except Exception as e:  # noqa
+        return {'condition': repr(cond), 'exception': repr(e), 'trace': traceback.format_exc(limit=4), 'signature_kind': 'exception'}
+    finally:
+        O.enable_caching()
+    if not ok:
+        kind = 'mismatch'
+        core = cond
+        while core[0] == 'not':
+            core = core[1]
+        if p.get('caching', True) and n_elem(cond) >= 1 and core[0] in ('and', 'or'):
+            # KF-C16-flattened-element-behind-result-cache: a logical operator whose operand depends on the flattened element
+            kind = 'cache-on:logical-operator-over-a-condition-on-the-flattened-element'
+        return {'condition': repr(cond), 'domain': repr([(o.name, o.size, o.tags) for o in dom]), 'got': got, 'want': want,
+                'signature_kind': kind}
+    return None
+
+
 def run_the_case(p):
     """C06: the() against the number of satisfying objects, twice, consistent with an()"""
     O.reset_registry()
@@ -521,7 +597,8 @@ def run_case(p):
     if p.get('kind') == 'lazy':
         return run_lazy_case(p)
     for k, f in (('forall', 'run_forall_case'), ('concat', 'run_concat_case'), ('rewrite', 'run_rewrite_case'),
-                 ('registry', 'run_registry_case'), ('infer', 'run_infer_case'), ('rdr', 'run_rdr_case'), ('rdrtree', 'run_rdrtree_case')):
+                 ('registry', 'run_registry_case'), ('infer', 'run_infer_case'), ('rdr', 'run_rdr_case'), ('rdrtree', 'run_rdrtree_case'),
+                 ('flatten_elem', 'run_flatten_elem_case')):
         if p.get('kind') == k:
             return globals()[f](p)
     if p.get('kind') == 'reuse':
